@@ -27,6 +27,7 @@ func c17(c *Ctx) {
 	c17R6(c)
 	cachedAuthoritative(c, "C17.R8")
 	c17R9(c)
+	c17R10(c)
 	itemIndependent(c, "C17.R7", [][3]string{{"pkg/controller/pod", "ReconcilePod.ParsePodNetworksFromAnnotation", "one allocation per requested network"}})
 }
 
@@ -735,4 +736,72 @@ func firstKey(cs []CallSite) string {
 		return ""
 	}
 	return cs[0].Fn.Key()
+}
+
+// R10: in every caller the chosen vSwitch is GetOne's answer and nothing else. The variable that
+// receives the result of SwitchPool.GetOne has no other source: no pre-selection in front of the call
+// (which would bypass the caller's candidate list and the policy) and no fallback after a refusal
+// (which would pick a vSwitch GetOne just found exhausted or blocked).
+func c17R10(c *Ctx) {
+	p := c.P
+	c.Rule("C17.R10", "callers of SwitchPool.GetOne: the variable that receives the chosen vSwitch is defined by GetOne calls only — no other lookup (GetByID, a scan of the node's interfaces) supplies it before or after")
+	get := p.Func(vswPkg, "SwitchPool.GetOne")
+	if get == nil {
+		c.Unres("C17.R10", "SwitchPool.GetOne", "not found")
+		return
+	}
+	n := 0
+	seen := map[types.Object]bool{}
+	for _, cs := range p.CallsTo(nil, get.Obj) {
+		fn := cs.Fn
+		info := fn.Info()
+		var as *ast.AssignStmt
+		for _, anc := range pathTo(fn.Decl.Body, cs.Call) {
+			if a, ok := anc.(*ast.AssignStmt); ok && len(a.Rhs) == 1 && ast.Unparen(a.Rhs[0]) == ast.Expr(cs.Call) {
+				as = a
+			}
+		}
+		if as == nil || len(as.Lhs) < 1 {
+			continue
+		}
+		v := identObj(info, as.Lhs[0])
+		if v == nil || seen[v] {
+			continue
+		}
+		seen[v] = true
+		n++
+		var other []string
+		ast.Inspect(fn.Decl.Body, func(k ast.Node) bool {
+			switch t := k.(type) {
+			case *ast.AssignStmt:
+				for i, l := range t.Lhs {
+					if identObj(info, l) != v {
+						continue
+					}
+					var rhs ast.Expr
+					if len(t.Rhs) == len(t.Lhs) {
+						rhs = t.Rhs[i]
+					} else if len(t.Rhs) == 1 {
+						rhs = t.Rhs[0]
+					}
+					if call, ok := ast.Unparen(rhs).(*ast.CallExpr); ok && Callee(info, call) == get.Obj {
+						continue
+					}
+					if rhs != nil && info.Types[ast.Unparen(rhs)].IsNil() {
+						continue
+					}
+					other = append(other, p.Pos(t)+": "+exprString2(t))
+				}
+			case *ast.ValueSpec:
+				for i, nm := range t.Names {
+					if info.Defs[nm] == v && i < len(t.Values) {
+						other = append(other, p.Pos(t)+": "+exprString(t.Values[i]))
+					}
+				}
+			}
+			return true
+		})
+		c.Check(len(other) == 0, "C17.R10", fn.Key()+": "+v.Name()+" comes from GetOne only", p.Pos(cs.Call), fn.Key(), "every definition of "+v.Name()+" is a GetOne call", strings.Join(other, "; "))
+	}
+	c.Floor("C17.R10", "result variables of GetOne in callers", 3, n)
 }
